@@ -17,6 +17,11 @@ def _quat_from_yaw(yaw):
     return list(rm.q_from_yaw(yaw))
 
 
+def _ann_quat(yaw, st):
+    q = list(rm.q_from_ypr(yaw, *st["rp"])) if st.get("rp") else _quat_from_yaw(yaw)
+    return [-c for c in q] if st.get("qneg") else q
+
+
 def _reorder(rows, spec):
     """Benign row-order variation decided at plan time: rotate by k and optionally reverse."""
     if not rows or not spec:
@@ -190,7 +195,7 @@ def write_dataset(root, world, storage):
                     "visibility_token": vis_token.get(st.get("vis") or "full", "") if vis_mode != "none" else "",
                     "translation": [float(x), float(y), float(z)],
                     "size": [float(v) for v in a["size"]],
-                    "rotation": _quat_from_yaw(yaw) if not st.get("qneg") else [-c for c in _quat_from_yaw(yaw)],
+                    "rotation": _ann_quat(yaw, st),
                     "num_lidar_pts": int(st.get("npts", 0)),
                     "num_radar_pts": 0,
                     "prev": ann_token(ai, present[k - 1]) if k > 0 else "",
